@@ -826,3 +826,63 @@ def err4(ctx):
             ctx.check(ok, '%s:%s' % (b.path, cs.path), where(b, cs.point), '%s: %s' % (kind, why), 'I/O error swallowed on the write path (%s): %s' % (kind, why))
     if n < 10:
         ctx.missing('sites', 'expected >= 10 io-bearing call sites in the mutating API bodies (the bodies shared with recovery are covered by ERR1)')
+
+
+@rule('ERR6', ['C11', 'C10'], floor=2, template='exhaustive-exit-kind')
+def err6(ctx):
+    """An io::Error converted into one of the crate's error enums stays an I/O error: every `From<io::Error>` impl of
+    an enum with an io-carrying variant returns THAT variant, holding the error it was given, on every path. `?` on the
+    recovery path goes through these conversions: one that files some error kinds (UnexpectedEof, InvalidData) under
+    `Corruption` makes a short or unreadable WAL file something the replay loop skips and retries (or reports as
+    damage), which is exactly what C11 excludes."""
+    iob = iob_enums(ctx)
+    n = 0
+    for b in ctx.f.bodies.values():
+        if b.is_test or 'as std::convert::From<std::io::Error>>::from' not in b.name:
+            continue
+        adt = b.ret_ty
+        if adt not in iob:
+            continue
+        n += 1
+        fl = flow_of(b)
+        t = fl.forward(set(fl.local_sources(1)))
+        bad = []
+        for e in b.exits():
+            ok = e['kind'] == 'value' and e.get('adt') == adt and iob[adt].get(e.get('variant')) and e.get('ops') and fl.op_tainted(e['ops'][0], t)
+            if not ok:
+                bad.append('%s%s' % (e.get('variant') or e['kind'], '' if e.get('variant') else ' at ' + b.loc(e['point'])))
+        ctx.check(not bad, '%s:stays-io' % adt, b.span, 'From<io::Error> for %s returns the io-carrying variant holding its argument on every path' % adt.split('::')[-1],
+                  'the conversion of an io::Error into %s can yield %s instead of the io-carrying variant holding the error: an I/O failure during recovery would be taken for damage (skipped, retried) or reported as something else' % (adt.split('::')[-1], ', '.join(sorted(set(bad)))))
+    if n < 2:
+        ctx.missing('conversions', 'expected the From<io::Error> conversions of ReadRecordError and ReadFrameError, found %d' % n)
+
+
+@rule('TAINT4', ['C10'], floor=1, template='no-panicking-primitive')
+def taint4(ctx):
+    """No text recovered from the WAL is cut at a byte offset: in the bodies open can reach (and in the read accessors),
+    outside the file-name parser whose one cut FS5 vets, there is no `str` slicing / `split_at` -- they panic when the
+    offset falls inside a multi-byte character, and queue names come back from disk (possibly damaged, possibly
+    `from_utf8_lossy`-repaired into 3-byte replacement characters). Bytes are cut as bytes (`&[u8]`), which cannot panic
+    that way."""
+    from rules_fs import name_readers, _parser_family
+    skip = set()
+    for rd in name_readers(ctx):
+        for x in _parser_family(ctx, rd):
+            skip.add(x.id)
+    bodies = {}
+    for b in list(recovery_bodies(ctx)) + list(api_ro(ctx)):
+        bodies[b.id] = b
+    for b in list(bodies.values()):
+        for x in reachable_bodies(ctx, [b]):
+            bodies[x.id] = x
+    bad = []
+    for b in bodies.values():
+        if b.id in skip or b.is_test:
+            continue
+        for cs in b.calls:
+            if re.search(r'ops::Index(Mut)?<.*> for str>::index(_mut)?$', cs.name) or re.search(r'str::traits::<impl std::ops::Index', cs.name) or \
+                    re.search(r'core::str::<impl str>::(split_at|split_at_mut|get_unchecked|slice_unchecked)$', cs.name) or \
+                    re.search(r'String as std::ops::Index<', cs.name) or re.search(r'std::string::String::(truncate|split_off|insert|insert_str|remove|drain|replace_range)$', cs.name):
+                bad.append('%s (%s: %s)' % (b.loc(cs.point), b.path, cs.name.split('::')[-1]))
+    ctx.check(not bad, 'no-str-cut', 'src/', 'no byte-offset cut of a str / String in the %d bodies reachable from open and the read accessors (name parser excepted)' % len(bodies),
+              'text is cut at a byte offset on the recovery / read path (%s): a name read back from the WAL with a multi-byte character across that offset makes open (or the accessor) panic' % sorted(set(bad)))
